@@ -247,20 +247,47 @@ def em_op(world, op, rng=None, params=None):
     elif op == 2:  # wrong layout with force_consistency
         j = P.get("wrong", len(pool) - 1) % len(pool)
         d, m = pool[j]
-        note(f"append(pool{j}, force_consistency=True)")
-        c = common.monitored(rec, "append(force_consistency)", em.append, d, force_consistency=True)
-        expect_reject = lay is not None and m.layout != lay
-        if expect_reject:
-            rec.check(not c.ok and isinstance(c.exc, ValueError), "consistency",
-                      f"droplet of layout {m.layout} accepted into an emulsion of layout {lay} although consistency "
-                      f"was requested ({c.exc!r}); ops {world.log[-6:]}")
-            if c.ok:
-                model.append(m.copy())
+        how = P.get("how", len(world.log) % 3)
+        if how == 0 or lay is None:
+            note(f"append(pool{j}, force_consistency=True)")
+            c = common.monitored(rec, "append(force_consistency)", em.append, d, force_consistency=True)
+            expect_reject = lay is not None and m.layout != lay
+            if expect_reject:
+                rec.check(not c.ok and isinstance(c.exc, ValueError), "consistency",
+                          f"droplet of layout {m.layout} accepted into an emulsion of layout {lay} although consistency "
+                          f"was requested ({c.exc!r}); ops {world.log[-6:]}")
+                if c.ok:
+                    model.append(m.copy())
+            else:
+                rec.check(c.ok, "consistency", f"compatible droplet rejected: {c.exc!r}; ops {world.log[-6:]}")
+                if c.ok:
+                    model.append(m.copy())
+                    set_layout(m)
+                    world.inserted = True
         else:
-            rec.check(c.ok, "consistency", f"compatible droplet rejected: {c.exc!r}; ops {world.log[-6:]}")
-            if c.ok:
-                model.append(m.copy())
-                set_layout(m)
+            # the same request made with a whole collection as the source: an Emulsion (built without
+            # consistency enforcement, so it may be heterogeneous) or a plain list whose first member fits
+            fit = [(dd, mm) for dd, mm in pool if mm.layout == lay]
+            src = ([fit[0]] if fit else []) + [(d, m)] + ([fit[-1]] if fit else [])
+            source = Emulsion([dd for dd, _ in src]) if how == 1 else [dd for dd, _ in src]
+            note(f"extend({'Emulsion' if how == 1 else 'list'}[{[mm.layout for _, mm in src]}], force_consistency=True)")
+            n0 = len(em)
+            c = common.monitored(rec, "extend(force_consistency)", em.extend, source, force_consistency=True)
+            first_bad = next((k for k, (_, mm) in enumerate(src) if mm.layout != lay), None)
+            added = list(em)[n0:]
+            if first_bad is None:
+                rec.check(c.ok and len(added) == len(src), "consistency",
+                          f"compatible collection rejected: {c.exc!r}; ops {world.log[-6:]}")
+            else:
+                rec.check(not c.ok and isinstance(c.exc, ValueError), "consistency",
+                          f"collection containing a droplet of layout {src[first_bad][1].layout} was accepted into an emulsion "
+                          f"of layout {lay} although consistency was requested ({c.exc!r}); ops {world.log[-6:]}")
+                rec.check(len(added) <= first_bad, "consistency",
+                          f"{len(added)} droplets were added although member {first_bad} of the source has the wrong layout; "
+                          f"ops {world.log[-6:]}")
+            for k in range(len(added)):  # resynchronise the model with what was accepted (a prefix of the source)
+                model.append(src[min(k, len(src) - 1)][1].copy())
+            if added:
                 world.inserted = True
     elif op == 3:  # extend
         js = P.get("many", [0, 2])
@@ -784,7 +811,7 @@ def gen(rng, kind, tier):
         for _ in range(L):
             op = int(rng.choice(N_EM_OPS, p=_EM_WEIGHTS))
             seq.append(op)
-            params.append({"pool": int(rng.integers(0, 4)), "wrong": int(rng.choice([4, 2])), "many": [int(x) for x in rng.integers(0, 4, int(rng.integers(0, 4)))],
+            params.append({"pool": int(rng.integers(0, 4)), "wrong": int(rng.choice([4, 2])), "how": int(rng.integers(0, 3)), "many": [int(x) for x in rng.integers(0, 4, int(rng.integers(0, 4)))],
                            "r": float(rng.choice([-1.0, 0.0, 0.3, 0.5, 1.0])), "slice": [int(rng.integers(0, 3)), None if rng.random() < 0.5 else int(rng.integers(1, 6)), None if rng.random() < 0.7 else 2],
                            "other": int(rng.integers(0, 5)), "dmin": float(rng.choice([0.0, 0.0, -0.3, 0.5])),
                            "i": int(rng.integers(0, 8)), "j": int(rng.integers(0, 8)), "v": float(rng.choice([0.0, 0.25, 0.7, 1.9]))})
